@@ -108,7 +108,7 @@ def gen_stalls(rng, funcs, p=0.3, max_line=36):
     return {'focus_stall': [f, rng.choice([0.05, 0.15, 0.3]), rng.choice([0.01, 0.05, 0.2])]}
 
 
-def line_offset(module, qualname, needle, default=None, nth=0):
+def line_offset(module, qualname, needle, default=None, nth=0, inner=None):
     """Line offset (relative to the def line) of the nth source line of module.qualname that contains `needle`; used by generators
     to plant a deep stall at a named place without hard-coding line numbers.  Falls back to `default` when the text is not there."""
     import importlib
@@ -122,6 +122,13 @@ def line_offset(module, qualname, needle, default=None, nth=0):
         lines, first = inspect.getsourcelines(obj)
         code_first = obj.__code__.co_firstlineno
         hits = [i for i, l in enumerate(lines) if needle in l]
+        if inner:
+            # offset inside a nested function (its own code object): relative to the line of its def
+            defs = [i for i, l in enumerate(lines) if l.strip().startswith('def %s(' % inner)]
+            hits = [i for i in hits if defs and i > defs[0]]
+            if defs and len(hits) > nth:
+                return hits[nth] - defs[0]
+            return default
         if len(hits) > nth:
             return first + hits[nth] - code_first
     except Exception:
